@@ -91,9 +91,21 @@ TEnqueueTry ==
      \/ pc[E.c] = "try" /\ Same
   /\ n[E.c] = E.a /\ (E.s # "" => ShardOf(E.c) = E.s)
   /\ KeepE /\ Adv
+\* The send is logged after it happened; by then the shard may already have taken an earlier item out
+\* of the channel without having logged its ProcessItem yet, so the channel capacity is not consulted
+\* here (the order and the content of the channel still are, at the receiver's event).
+SendAnyCap(c) ==
+  /\ pc[c] = "try" /\ n[c] > 0
+  /\ chan' = [chan EXCEPT ![ShardOf(c)] = Append(@, c)]
+  /\ pc' = [pc EXCEPT ![c] = IF Early THEN "returned" ELSE "waiting"]
+  /\ ret' = [ret EXCEPT ![c] = IF Early THEN "nil" ELSE @]
+  /\ accAt' = [accAt EXCEPT ![c] = now]
+  /\ accBeforeShut' = IF shut = "no" THEN accBeforeShut \cup {c} ELSE accBeforeShut
+  /\ UNCHANGED <<n, cx, cb, rem, errs, resp, preLimitOk, envVars, admVars,
+                 st, cnt, pending, sentF, deadline, cur, curSent, curTrig, expVars>>
 TEnqueueSend ==
   /\ Ev("EnqueueSend")
-  /\ \/ EnqueueSend(E.c)
+  /\ \/ SendAnyCap(E.c)
      \/ pc[E.c] # "try" /\ accAt[E.c] >= 0 /\ Same              \* already performed by the receiver's event
   /\ KeepE /\ Adv
 TEnqueueCtxDone == Ev("EnqueueCtxDone") /\ EnqueueCtxDone(E.c) /\ KeepE /\ Adv
@@ -153,7 +165,7 @@ TRecvOf(s, c) ==
   /\ LET sendNow == pc[c] = "try"
          ch == IF sendNow THEN Append(chan[s], c) ELSE chan[s]
      IN /\ \E j \in DOMAIN ch : ch[j] = c
-        /\ (sendNow => n[c] > 0 /\ Len(chan[s]) < Q)
+        /\ (sendNow => n[c] > 0)
         /\ chan' = [chan EXCEPT ![s] = RemoveFirst(ch, c)]
         /\ pc' = IF sendNow THEN [pc EXCEPT ![c] = IF Early THEN "returned" ELSE "waiting"] ELSE pc
         /\ ret' = IF sendNow /\ Early THEN [ret EXCEPT ![c] = "nil"] ELSE ret
